@@ -7,4 +7,5 @@ CONSTANTS
   Part = "ctl"
   Dims = {"rf", "dc"}
   HOpts = {"temp", "hard", "gumbel", "disable"}
+  Forking = FALSE
 INVARIANT AlwaysHomogeneous
